@@ -89,7 +89,7 @@ def classify(body):
             plumbing.append((bb, t, c))
         else:
             other.append((bb, t, c))
-    if len(pcalls) == 1 and not other and plumbing:
+    if len(pcalls) == 1 and not other:
         b1, t1, c1 = pcalls[0]
         info = {'call_bb': b1, 'callee_name': c1['name'], 'callee_full': c1['full'], 't': t1,
                 'plumbing': [(t, c) for _b, t, c in plumbing]}
@@ -215,6 +215,10 @@ def check_delegation(body, info, out, decs_by_ty, sec):
             rv = st['rv']
             if rv['k'] == 'aggr' and rv.get('variant') == 'Ok':
                 continue
+            if rv['k'] == 'aggr' and rv.get('variant') == 'Err' and rv['ops'] and \
+                    all(_flows_from(body, op_local(o), res_l) for o in rv['ops'] if op_local(o) is not None) and \
+                    any(op_local(o) is not None for o in rv['ops']):
+                continue        # `Err(err) => Err(E::Variant(err))` of an explicit match on the delegate result
             pl = op_place(rv['op']) if rv['k'] in ('use', 'cast') else None
             if pl is None or not _flows_from(body, pl['l'], res_l):
                 ok = False
@@ -227,7 +231,15 @@ def check_delegation(body, info, out, decs_by_ty, sec):
     # the Ok(()) return must sit on the success edge of the delegate result, i.e. after a `branch`
     has_ok_literal = any(kind == 'assign' and st['rv']['k'] == 'aggr' and st['rv'].get('variant') == 'Ok'
                          for bi, si, kind, st in body.defs.get(0, []))
-    if has_ok_literal and not any(pc['name'] == 'branch' for _pt, pc in info['plumbing']):
+    tested = any(pc['name'] == 'branch' for _pt, pc in info['plumbing'])
+    for blk in body.blocks:
+        tt = blk['term']
+        if tt['k'] == 'switch' and not blk.get('cleanup'):
+            dl = op_local(tt['discr'])
+            for bi, si, kind, st in body.defs.get(dl, []) if dl is not None else []:
+                if kind == 'assign' and st['rv']['k'] == 'discr' and st['rv']['pl']['l'] == res_l:
+                    tested = True
+    if has_ok_literal and not tested:
         ok = False
         why.append('returns Ok(()) without testing the delegate result')
     # no other writes through the state
